@@ -109,12 +109,14 @@ def build(reg):
     reg.shapes["Ghost"].fields.update({"n_constructed": "nat", "n_attempted": "nat"})
     reg.external("call:int", ext_construct)
     reg.shape("RegExc", fields={"__class__": "int", "ctor_args": "any", "ctor_kwargs": "any"})
+    reg.shapes["RegExc"].open_attrs = True      # an instance of a user's exception class: any further attribute may exist
     # an ApplicationError or an instance of a subclass of it; its class may itself be registered (class identity)
     reg.shape("AppErrIn", cls=EXC + ":ApplicationError",
               fields={"error": "str", "args": "list:int", "kwargs": "opt:dict:str->int", "__class__": "int"})
     reg.shape("UserExcKw", fields={"__class__": "int", "args": "list:int", "kwargs": "opt:dict:str->int"},
               isa=("Exception", "BaseException"))
     reg.shape("UserExc", fields={"__class__": "int", "args": "list:int"}, isa=("Exception", "BaseException"))
+    reg.shapes["UserExc"].absent = ("kwargs",)      # this unit is the case "a user exception without a kwargs attribute"
     reg.shape("ErrorOut", cls=MSG + ":Error", fields={"request_type": "int", "request": "int", "error": "str",
                                                       "args": "any", "kwargs": "any"})
     # payload equality is equality of content (None and empty are the same payload), never object identity
